@@ -49,6 +49,12 @@ func clean(x interface{}) interface{} {
 
 func Install(vm *goja.Runtime) {
 	InstallBridge(vm) // C13: Go containers behind wrappers (bridge.go)
+	InstallFieldSel(vm)
+	vm.Set("__fsMapper", func(kind string) {
+		if kind == "uncap" {
+			vm.SetFieldNameMapper(goja.UncapFieldNameMapper())
+		}
+	})
 	vm.Set("__tag", func(call goja.FunctionCall) goja.Value {
 		return vm.ToValue(goja.VerifValueTag(call.Argument(0)))
 	})
